@@ -325,7 +325,8 @@ class World:
             keys = sorted({tuple(r.randint(0, 1) for _ in range(n)) for _ in range(r.randint(1, 5))})
             ws = [r.choice([1, 2, 0.5, r.random()]) for _ in keys]
             tot = sum(ws) if r.random() < 0.6 else 1.0   # sometimes unnormalised: the constructor then rescales
-            return {"t": t, "spec": [[list(k), w / tot] for k, w in zip(keys, ws)], "style": r.choice(["tuple", "bits"])}
+            return {"t": t, "spec": [[list(k), w / tot] for k, w in zip(keys, ws)], "style": r.choice(["tuple", "bits"]),
+                    "raw": r.random() < 0.3}   # raw: kept as given (normalize=False), whatever the weights sum to
         if t == "W":
             kind = r.choice(["num", "num", "basis", "sym"])
             return {"t": "W", "n": n, "kind": kind, "seed": r.getrandbits(30)}
@@ -479,7 +480,8 @@ class World:
         if t == "BL":
             return [tuple(bs) for bs in a["spec"]]
         if t == "D":
-            return L["MOD"]({(tuple(k) if a["style"] == "tuple" else "".join(map(str, k))): w for k, w in a["spec"]})
+            src = {(tuple(k) if a["style"] == "tuple" else "".join(map(str, k))): w for k, w in a["spec"]}
+            return L["MOD"](src, normalize=False) if a.get("raw") else L["MOD"](src)
         if t == "CD2":
             return {(tuple(k) if a["style"] == "tuple" else "".join(map(str, k))): w for k, w in a["spec"]}
         if t in ("W", "V"):
@@ -639,7 +641,30 @@ class World:
                 st["tainted"].add(idxs[0])
         if name == "sim_wf_init" and not args[0].operations:
             st["tainted"].add(idxs[1])
-        self._probe_result_alias(ctx, st, name, results, before)
+        c1_before_edit = c1
+        if self._probe_result_alias(ctx, st, name, results, before) and not name.endswith("_save") and name not in ("d_save_list",):
+            # the client has edited what the second call gave it; the operation, asked once more with the same
+            # arguments, must still give what it gave the first time (no result is handed out twice / kept in a cache
+            # that callers can write to)
+            st["rng"].begin_step(step["rs"])
+            st["sim_obj"] = st["Sim"](seed=st["sim_seed"])
+            st["fs"].begin_call(None)
+            try:
+                try:
+                    with time_limit(45):
+                        ok3, r3 = call(fn, L, args, a["k"], env)
+                except WallLimit:
+                    ok3, r3 = False, None
+            finally:
+                st["fs"].end_call()
+            if ok3:
+                with judge(ctx, "malformed-result"):
+                    c3 = json.dumps(canon_any(r3, L), sort_keys=True)
+                ctx.probe("third-call-after-result-edit")
+                if c3 != c1_before_edit:
+                    ctx.fail("not-repeatable", f"{name}:after-result-edit",
+                             f"after the client edited the result of an earlier call, {name} on the same (unchanged) arguments returned "
+                             f"{c3[:300]} instead of {c1_before_edit[:300]}")
         res = results[0]
         t = classify(res, L)
         if name == "w_bind" and res is args[0]:
@@ -679,7 +704,7 @@ class World:
         """The client edits the (second, otherwise discarded) result through its public interface; no object that
         existed before the call may change: a value does not share mutable state with the values it was computed from."""
         if name in self.ALIAS_BY_DESIGN or (name == "sim_wf_init"):
-            return
+            return False
         r1, r2 = results
         L = st["L"]
         # (a result that IS one of the pool objects, or the same object on both calls, is not skipped: for the
@@ -719,10 +744,13 @@ class World:
             elif isinstance(r2, dict):
                 r2["__client_key__"] = 1
                 done = True
+            elif hasattr(r2, "nnz") and hasattr(r2, "data") and getattr(r2, "nnz", 0):
+                r2.data[0] = r2.data[0] * 2 + 1   # scipy sparse matrix handed to the client
+                done = True
         except Exception:  # noqa: BLE001 - the edit itself is the client's business; only its side effects matter
             done = True
         if not done:
-            return
+            return False
         ctx.probe("result-edited")
         with judge(ctx, "malformed-object"):
             now = self._snap_all(st)
@@ -732,6 +760,7 @@ class World:
             ctx.fail("mutated-argument", f"{name}:result-shares-state",
                      f"editing the result of {name} changed pool[{bad[0]}] ({st['pool'][bad[0]][0]}): the result shares mutable state "
                      f"with an object that existed before the call: {before[bad[0]][:250]} -> {now[bad[0]][:250]}")
+        return True
 
     MUTABLE = ("OL", "CD2", "SM", "PD", "CD", "DD", "OD", "CL", "V", "BL", "TL")
 
